@@ -544,6 +544,11 @@ func judgeTree(d *lib.Driver, v any, o wopts) error {
 	}
 	met := map[string]bool{}
 	cv := clean(v, o.html, false, met)
+	if sv, ok := v.(string); ok && topLevelEF(sv, o.html) {
+		// a bare top-level string that begins with 0xEF meets the BOM test of Parse: look at it in an array
+		met["C10-top-level-ef"] = true
+		cv = []any{cv}
+	}
 	if len(met) > 0 {
 		if ok2, _, _, _ := roundTrips(cv, o); ok2 {
 			ids := make([]string, 0, len(met))
@@ -553,12 +558,6 @@ func judgeTree(d *lib.Driver, v any, o wopts) error {
 			sort.Strings(ids)
 			extra["excluded_classes"] = ids
 			addKnown(ids[0], cls+":"+ids[0], "the tree has strings of the excluded classes "+strings.Join(ids, ", ")+" and round-trips once they are replaced", in, extra)
-			return nil
-		}
-	}
-	if sv, ok := v.(string); ok && topLevelEF(sv, o.html) {
-		if ok2, _, _, _ := roundTrips([]any{sv}, o); ok2 {
-			addKnown("C10-top-level-ef", cls+":C10-top-level-ef", "a bare top-level string that begins with the byte 0xEF meets the BOM test of Parse", in, extra)
 			return nil
 		}
 	}
